@@ -59,6 +59,9 @@ type wkind struct {
 	depthQ  int
 	depthT  int
 	ops     []*op
+	// prefix: op names executed (in lock-step, like any op) at the start of every history of this kind
+	prefix    []string
+	prefixIdx []int
 }
 
 func sliceWithSpare[T any](xs ...T) []T {
@@ -472,8 +475,78 @@ func allKinds() []*wkind {
 			}}}},
 		depthQ: 2, depthT: 4})
 
+	// ---- shrink / regrow with element wrappers already handed out --------------------------------
+	// Every history starts after all element wrappers were read (so goja's per-index cache is full), then
+	// shrinks (length= below / above the held indices, pop, splice), regrows (length=, push, index assignment,
+	// Go-side append; within capacity and re-allocating) and reads in DESCENDING as well as ascending order:
+	// a higher index touched first re-extends the cache over whatever the shrink left behind.
+	regrow := func(goOps []goOp, push valDef, vals []valDef, keys []keyDef) alphabet {
+		return alphabet{targets: []target{tgtW}, keys: keys, takes: []int{0}, reads: true,
+			vals: vals, pushVals: []valDef{push}, arrayOps: true, readAll: true, splices: []spliceDef{{1, 2, nil}},
+			lens: []int{0, 1, 2, 4, 7}, goOps: goOps}
+	}
+	ks = append(ks, &wkind{name: "*[]struct/regrow", mk: func() interface{} {
+		s := make([]In, 4, 6)
+		copy(s, []In{{10}, {11}, {12}, {13}})
+		return &s
+	}, probes: []string{"0", "3", "4", "X"}, prefix: []string{"readall-asc w"},
+		alpha: regrow([]goOp{
+			{"s=append(s,In{5})", "append", func(h reflect.Value) { p := hostOf[[]In](h); *p = append(*p, In{5}) }},
+			{"s[1].X=8", "assign-field", func(h reflect.Value) {
+				if s := *hostOf[[]In](h); len(s) > 1 {
+					s[1].X = 8
+				}
+			}},
+			{"s[2].X=9", "assign-field", func(h reflect.Value) {
+				if s := *hostOf[[]In](h); len(s) > 2 {
+					s[2].X = 9
+				}
+			}},
+		}, litIn, []valDef{val7, litIn}, []keyDef{kIdx(1), kIdx(3), kIdx(5), kStr("X")}),
+		depthQ: 4, depthT: 5})
+	ks = append(ks, &wkind{name: "*[][2]int/regrow", mk: func() interface{} {
+		s := make([][2]int, 4, 6)
+		copy(s, [][2]int{{10, 0}, {11, 1}, {12, 2}, {13, 3}})
+		return &s
+	}, probes: []string{"0", "3", "4"}, prefix: []string{"readall-asc w"},
+		alpha: regrow([]goOp{
+			{"s=append(s,[2]int{5,5})", "append", func(h reflect.Value) { p := hostOf[[][2]int](h); *p = append(*p, [2]int{5, 5}) }},
+			{"s[2][0]=9", "assign-elem", func(h reflect.Value) {
+				if s := *hostOf[[][2]int](h); len(s) > 2 {
+					s[2][0] = 9
+				}
+			}},
+		}, litA2, []valDef{val7}, []keyDef{kIdx(0), kIdx(2), kIdx(3)}),
+		depthQ: 3, depthT: 5})
+	ks = append(ks, &wkind{name: "*[][]int/regrow", mk: func() interface{} {
+		s := make([][]int, 4, 6)
+		copy(s, [][]int{{10}, {11}, {12}, {13}})
+		return &s
+	}, probes: []string{"0", "3", "4"}, prefix: []string{"readall-asc w"},
+		alpha: regrow([]goOp{
+			{"s=append(s,[]int{5})", "append", func(h reflect.Value) { p := hostOf[[][]int](h); *p = append(*p, []int{5}) }},
+			{"s[2][0]=9", "assign-elem", func(h reflect.Value) {
+				if s := *hostOf[[][]int](h); len(s) > 2 && len(s[2]) > 0 {
+					s[2][0] = 9
+				}
+			}},
+		}, litA2, []valDef{val7}, []keyDef{kIdx(0), kIdx(2), kIdx(3)}),
+		depthQ: 3, depthT: 5})
+
 	for _, k := range ks {
 		k.ops = buildOps(&k.alpha)
+		for _, n := range k.prefix {
+			found := -1
+			for i, o := range k.ops {
+				if o.name == n {
+					found = i
+				}
+			}
+			if found < 0 {
+				panic("c13: unknown prefix op " + n + " in kind " + k.name)
+			}
+			k.prefixIdx = append(k.prefixIdx, found)
+		}
 	}
 	return ks
 }
